@@ -10,6 +10,7 @@ import (
 	"github.com/khirono/go-nl"
 
 	"github.com/free5gc/go-upf/internal/forwarder"
+	"github.com/free5gc/go-upf/internal/logger"
 	"github.com/free5gc/go-upf/internal/pfcp"
 	"github.com/free5gc/go-upf/internal/verif/evid"
 	"github.com/free5gc/go-upf/internal/verif/mdp"
@@ -59,6 +60,7 @@ func cfgFor(blk *netx.Block, maxRetrans uint8) *factory.Config {
 // newWorld must be called from a managed thread. full: real gtp5g driver over the simulated kernel.
 func newWorld(x *vsched.Exec, full bool, maxRetrans uint8) *world {
 	pfcp.VQuietLog()
+	logger.Log.ExitFunc = func(int) { vsched.Crash(pfcp.VFatalMsg()) } // os.Exit: the process is gone
 	w := &world{blk: netx.Get(), peers: peerSocks()}
 	for i := range w.seq {
 		w.seq[i] = 1
